@@ -713,14 +713,16 @@ type FunctionNode struct {
 }
 
 func (n *FunctionNode) String() string {
-	var expr = n.Name + "("
+	var expr strings.Builder
+	expr.WriteString(n.Name + "(")
 	for i, arg := range n.Args {
 		if i > 0 {
-			expr += ","
+			expr.WriteString(",")
 		}
-		expr += arg.String()
+		expr.WriteString(arg.String())
 	}
-	return expr + ")"
+	expr.WriteString(")")
+	return expr.String()
 }
 
 func (n *FunctionNode) Children() []Node {
@@ -733,14 +735,16 @@ type ListLiteralNode struct {
 }
 
 func (n *ListLiteralNode) String() string {
-	var expr = "["
+	var expr strings.Builder
+	expr.WriteString("[")
 	for i, item := range n.Items {
 		if i > 0 {
-			expr += ", "
+			expr.WriteString(", ")
 		}
-		expr += item.String()
+		expr.WriteString(item.String())
 	}
-	return expr + "]"
+	expr.WriteString("]")
+	return expr.String()
 }
 
 func (n *ListLiteralNode) Children() []Node {
@@ -795,11 +799,12 @@ type DataRefNode struct {
 }
 
 func (n *DataRefNode) String() string {
-	var expr = "$" + n.Key
+	var expr strings.Builder
+	expr.WriteString("$" + n.Key)
 	for _, access := range n.Access {
-		expr += access.String()
+		expr.WriteString(access.String())
 	}
-	return expr
+	return expr.String()
 }
 
 func (n *DataRefNode) Children() []Node {
